@@ -113,6 +113,11 @@ Clauses ==
   (st = "run" /\ path = <<>>) =>
     LET o == Obs[case]  p == o.part IN
     /\ Report([t |-> "IN", id |-> o.id])
+    (* a glob that owns its expression text (into_owned, FromStr) partitions the same way *)
+    /\ (p.own_ok /\ p.own_prefix = p.prefix /\ p.own_has_post = p.has_post /\ p.own_post = p.post)
+         \/ Dis("owned_glob_partitions_differently")
+    /\ (p.par_ok /\ p.par_prefix = p.prefix /\ p.par_has_post = p.has_post /\ p.par_post = p.post)
+         \/ Dis("parsed_glob_partitions_differently")
     /\ (p.has_post =>
          /\ (p.post_root = "never") \/ Dis("postfix_rooted")
          /\ (p.re_has_post /\ p.re_prefix = <<>> /\ p.re_post = p.post) \/ Dis("repartition_not_idempotent")
